@@ -43,6 +43,14 @@ Definition expected_const (m : module) (c : constant) : expect :=
       | Some (TScalar s) =>
           match prim_of_scalar s, c_init c with
           | Some p, GLiteral l => ESome (mkOutConst n p (concrete l))
+          | Some p, GZero =>                         (* zero value constructor: the zero of the declared type *)
+              match p with
+              | PF64 => ESome (mkOutConst n p (LF64 0)) | PF32 => ESome (mkOutConst n p (LF32 0))
+              | PI32 => ESome (mkOutConst n p (LI32 0)) | PU32 => ESome (mkOutConst n p (LU32 0))
+              | PI64 => ESome (mkOutConst n p (LI64 0)) | PU64 => ESome (mkOutConst n p (LU64 0))
+              | PBool => ESome (mkOutConst n p (LBool false))
+              | _ => EMissing
+              end
           | _, _ => EMissing                        (* a scalar constant that cannot be exported *)
           end
       | _ => ENone                                  (* non-scalar: skipped *)
@@ -86,9 +94,11 @@ Definition wf_const (m : module) (c : constant) : bool :=
   | Some _ =>
       match get_inner m (c_ty c), c_init c with
       | Some (TScalar s), GLiteral l => lit_matches l s
+      | Some (TScalar s), GZero =>
+          match sk s with SkAbstractInt | SkAbstractFloat => false | _ => match prim_of_scalar s with Some _ => true | None => false end end
       | Some (TScalar s), GOther => false
       | Some _, GLiteral _ => false
-      | Some _, GOther => true
+      | Some _, _ => true
       | None, _ => false
       end
   end.
